@@ -2,6 +2,7 @@
 # usage: tryseed.sh <patch.diff> <property>...   applies the patch to /repo, runs the quick checks, reverts.
 p="$1"; shift
 cd /repo || exit 2
+if [ -n "$(git status --porcelain)" ]; then echo "REFUSING: /repo has uncommitted changes (commit them first)"; exit 4; fi
 if ! git apply --check "$p" 2>/dev/null; then echo "PATCH DOES NOT APPLY: $p"; exit 3; fi
 git apply "$p"
 rc=0
